@@ -19,6 +19,7 @@ type Case struct {
 	B      model.Schema `json:"b"`       // desired schema
 	RouteA int          `json:"route_a"` // how A is materialised: 0 native DDL, 1 atlas-style DDL, 2 Atlas apply(empty -> A)
 	StyleB int          `json:"style_b"` // DDL style of the reference database B is inspected from
+	Hand   bool         `json:"hand,omitempty"` // with ViaHCL: the document is shaped the way a person writes it (CHECK expressions without the clause's own parentheses)
 	ViaHCL bool         `json:"via_hcl"` // desired = EvalHCL(MarshalHCL(inspect(ref))) instead of inspect(ref) (a second live database)
 	Edits  []string     `json:"edits"`   // how B was derived from A (informational)
 }
@@ -131,6 +132,50 @@ func desiredOf(ctx context.Context, ref *eng.DB, viaHCL bool) (*schema.Realm, er
 	return &out, nil
 }
 
+// oneGroup reports whether s is enclosed by one pair of parentheses (SQLite quoting: '...', "...", `...`, [...]).
+func oneGroup(s string) bool {
+	if len(s) < 2 || s[0] != '(' || s[len(s)-1] != ')' {
+		return false
+	}
+	depth := 0
+	for i := 0; i < len(s); i++ {
+		switch c := s[i]; c {
+		case '\'', '"', '`', '[':
+			end := c
+			if c == '[' {
+				end = ']'
+			}
+			j := strings.IndexByte(s[i+1:], end)
+			if j == -1 {
+				return false
+			}
+			i += j + 1
+		case '(':
+			depth++
+		case ')':
+			depth--
+			if depth == 0 && i != len(s)-1 {
+				return false
+			}
+		}
+	}
+	return depth == 0
+}
+
+// handWritten rewrites a desired realm the way a person writes the document: CHECK expressions without the parentheses
+// of the CHECK clause itself (the inspector keeps them).
+func handWritten(r *schema.Realm) {
+	for _, s := range r.Schemas {
+		for _, t := range s.Tables {
+			for _, a := range t.Attrs {
+				if ck, ok := a.(*schema.Check); ok && oneGroup(ck.Expr) {
+					ck.Expr = strings.TrimSpace(ck.Expr[1 : len(ck.Expr)-1])
+				}
+			}
+		}
+	}
+}
+
 func planText(db *eng.DB, ctx context.Context, changes []schema.Change) string {
 	p, err := db.Plan(ctx, changes)
 	if err != nil {
@@ -164,6 +209,9 @@ func checkCase(c Case) (Outcome, error) {
 	if err != nil {
 		return out, err
 	}
+	if c.ViaHCL && c.Hand {
+		handWritten(desired)
+	}
 	cur, err := db.Inspect(ctx)
 	if err != nil {
 		return out, fmt.Errorf("inspect current: %v", err)
@@ -196,6 +244,9 @@ func checkCase(c Case) (Outcome, error) {
 	desired2, err := desiredOf(ctx, ref, c.ViaHCL)
 	if err != nil {
 		return out, err
+	}
+	if c.ViaHCL && c.Hand {
+		handWritten(desired2)
 	}
 	changes2, err := db.Diff(cur2, desired2)
 	if err != nil {
